@@ -9,9 +9,17 @@
         (positions at a data error depend on the slicing) and maps the final LZMA_BUF_ERROR to 0.
     rawr / rawmultir: same answers (the harness runs them on a reused lzma_stream; the model has no handle state).
     dict <dictsize> <presethex> <ops…>   index-level dictionary model (LzDict.Dict), see `dictOps`
+    xz <api> <flags> <reuse> <inslices> <outslices> <orighex> <filehex>      container level (harness/c03_xz.c)
+        api sd = XzDecode.xzDecode, sbd = XzDecode.xzBufferDecode, blk = Container.blockHeaderDecode + XzDecode.blockDecode
+        (flags = Check ID), all with XzEnv.fastEnv (Model/Lzma2.lean rawDecode behind the delta/BCJ models, every Block
+        starting at position 0). reuse and the slicings do not exist for the model.
+        answer "<ret> <consumed> <notices> <outlen> <lcp> <crc64>"
 -/
 import XzVerif.Model.Proto
 import XzVerif.Model.Lzma2
+import XzVerif.Model.XzDecode
+import XzVerif.Model.XzEnv
+import XzVerif.Model.XzStruct
 open XzVerif XzVerif.Proto XzVerif.Lzma XzVerif.Lzma2 XzVerif.LzDict
 
 def hexNib (c : UInt8) : Option UInt8 :=
@@ -137,6 +145,41 @@ def dictOps (d : Dict) (ops : List String) (acc : String) : String :=
       | none => "bad-op"
     | _ => "bad-op"
 
+/-! container level -/
+def XZ_OUTCAP : Nat := 8 * 1048576
+
+def lcpGo (a : Array UInt8) : List UInt8 → Nat → Nat
+  | [], n => n
+  | b :: t, n => if h : n < a.size then (if a[n] = b then lcpGo a t (n + 1) else n) else n
+
+def hex16 (n : Nat) : String :=
+  String.ofList ((List.range 16).map fun i => hexDigit (n / 16 ^ (15 - i) % 16))
+
+def showEvents (ev : List Ret) : String :=
+  if ev.isEmpty then "-" else ",".intercalate (ev.map fun r => toString r.toNat)
+
+def xzAnswer (orig : Array UInt8) (ret : Ret) (consumed : Nat) (events : List Ret) (out : List UInt8) : String :=
+  let outb := ByteArray.mk out.toArray
+  s!"{ret.toNat} {consumed} {showEvents events} {out.length} {lcpGo orig out 0} {hex16 (XzStruct.crc64Slice outb 0 outb.size)}"
+
+def xzRun (api : String) (flags : Nat) (orig : Array UInt8) (inp : List UInt8) : String :=
+  if api == "sd" then
+    if flags ≥ XzDecode.SUPPORTED_FLAGS_MASK then xzAnswer orig .optionsError 0 [] []
+    else
+      let r := XzDecode.xzDecode XzEnv.fastEnv (XzDecode.Flags.ofNat flags) inp XZ_OUTCAP
+      xzAnswer orig r.ret r.consumed r.events r.out
+  else if api == "sbd" then
+    let r := XzDecode.xzBufferDecode XzEnv.fastEnv flags inp XZ_OUTCAP
+    xzAnswer orig r.ret r.consumed r.events r.out
+  else if api == "blk" then
+    let hs := ((inp.getD 0 0).toNat + 1) * 4
+    match Container.blockHeaderDecode flags inp with
+    | .error e => xzAnswer orig e 0 [] []
+    | .ok h =>
+      let r := XzDecode.blockDecode XzEnv.fastEnv flags false hs h (inp.drop hs) XZ_OUTCAP
+      xzAnswer orig (if r.ret == .ok then .bufError else r.ret) (hs + r.consumed) [] r.out
+  else "bad-op"
+
 def step (_ : Unit) (ws0 : List String) : Unit × String :=
   let ws := match ws0 with
     | "rawr" :: rest => "raw" :: rest
@@ -166,10 +209,19 @@ def step (_ : Unit) (ws0 : List String) : Unit × String :=
         ((), if r.1 == .dataError then "9" else fmt r)
       | none => ((), "bad-op")
     | _, _ => ((), "bad-op")
+  | ["xz", api, flags, _, _, _, orig, file] =>
+    match flags.toNat?, hexBytes orig, hexBytes file with
+    | some fl, some o, some f => ((), xzRun api fl o.data f.toList)
+    | _, _, _ => ((), "bad-op")
   | "dict" :: ds :: preset :: ops =>
     match ds.toNat?, hexBytes preset with
     | some ds, some pre => ((), (dictOps (Dict.init ds pre.toList) ops "ok").trimAscii.toString)
     | _, _ => ((), "bad-op")
   | _ => ((), "bad-op")
 
-def main : IO Unit := runLoop step ()
+def main : IO UInt32 := do
+  if !XzEnv.fastSelfTest then
+    IO.eprintln "xzm_c03: fastCheck/deltaFast differ from the Check/Delta models (self test)"
+    return 3
+  runLoop step ()
+  return 0
